@@ -189,7 +189,97 @@ func c11bigBatch(c *mon.Ctx) {
 	c.Count("rerepresentations_checked", 1)
 }
 
+// c11pointWithRatio returns a Banderwagon element whose x/y equals u (if one exists).
+func c11pointWithRatio(u *big.Int) (ref.Point, bool) {
+	// x = u*y  =>  d u^2 t^2 - (a u^2 + 1) t + 1 = 0  with t = y^2
+	u2 := ref.MulP(u, u)
+	if u2.Sign() == 0 {
+		return ref.Identity(), true
+	}
+	A := ref.MulP(ref.CurveD, u2)
+	B := ref.AddP(ref.MulP(ref.CurveA, u2), bigOne)
+	disc := ref.SubP(ref.MulP(B, B), ref.MulP(big.NewInt(4), A))
+	sq := ref.SqrtP(disc)
+	if sq == nil {
+		return ref.Point{}, false
+	}
+	inv2A := ref.InvP(ref.MulP(big.NewInt(2), A))
+	for _, sgn := range []bool{false, true} {
+		num := ref.AddP(B, sq)
+		if sgn {
+			num = ref.SubP(B, sq)
+		}
+		t := ref.MulP(num, inv2A)
+		y := ref.SqrtP(t)
+		if y == nil || y.Sign() == 0 {
+			continue
+		}
+		x := ref.MulP(u, y)
+		a := ref.Affine{X: x, Y: y}
+		if a.OnCurve() && ref.SubgroupCheck(x) {
+			return ref.FromAffine(a), true
+		}
+	}
+	return ref.Point{}, false
+}
+
+// c11ratios: x/y values at which the reduction of the base-field value into the scalar field is delicate.
+func c11targeted(c *mon.Ctx, rng *rand.Rand) {
+	r := ref.R
+	var us []*big.Int
+	for k := int64(1); k <= 4; k++ {
+		kr := new(big.Int).Mul(big.NewInt(k), r)
+		for j := int64(-40); j <= 40; j++ {
+			u := new(big.Int).Add(kr, big.NewInt(j))
+			if u.Sign() > 0 && u.Cmp(ref.P) < 0 {
+				us = append(us, u)
+			}
+		}
+		// same top limb as k*r, lower limbs smaller
+		us = append(us, new(big.Int).Sub(kr, randBig(rng, new(big.Int).Lsh(bigOne, 190))))
+	}
+	for j := int64(1); j <= 40; j++ {
+		us = append(us, new(big.Int).Sub(ref.P, big.NewInt(j)), big.NewInt(j), new(big.Int).Add(new(big.Int).Lsh(bigOne, 192), big.NewInt(j)))
+	}
+	found := 0
+	for _, u := range us {
+		pt, ok := c11pointWithRatio(u)
+		if !ok {
+			continue
+		}
+		found++
+		want := new(big.Int).Mod(u, r)
+		if ref.MapToScalarField(pt).Cmp(want) != 0 && !isIdentityClass(pt) {
+			c.Note("targeted point construction is wrong - harness problem")
+			return
+		}
+		norm := ElemFromRef(pt, nil, false)
+		for kind := 0; kind < NumRepKinds; kind++ {
+			e := Rerepresent(&norm, kind, rng)
+			var got fr.Element
+			got.SetUint64(777)
+			e.MapToScalarField(&got)
+			if FrToBig(&got).Cmp(want) != 0 {
+				c.Fail("map-differs-from-reference/targeted-ratio", fmt.Sprintf("MapToScalarField of an element with x/y = %s (adjacent to a multiple of r) is %s, want %s", u.Text(16), FrToBig(&got).Text(16), want.Text(16)), nil)
+				break
+			}
+			var b1 fr.Element
+			b1 = FrFromBig(randBig(rng, ref.R))
+			if err := banderwagon.BatchMapToScalarField([]*fr.Element{&b1}, []*banderwagon.Element{&e}); err != nil || b1 != got {
+				c.Fail("batch-differs-from-single/targeted-ratio", "BatchMapToScalarField differs from MapToScalarField for an element with x/y adjacent to a multiple of r", nil)
+				break
+			}
+		}
+		c.Count("single_maps_checked", int64(NumRepKinds))
+		c.EvalN("targeted-ratio|near-multiple-of-r-or-boundary", int64(NumRepKinds), true)
+	}
+	c.Count("targeted_ratio_points", int64(found))
+}
+
 func runC11(c *mon.Ctx) {
+	if c.Shard == 0 && c.Config["part"] != "bigbatch" {
+		c.Case("targeted-ratios", func() { c11targeted(c, c.Rand("targeted-ratios")) })
+	}
 	if c.Config["part"] == "bigbatch" {
 		c11bigBatch(c)
 		return
